@@ -2,6 +2,8 @@ use crate::prng::Rng;
 use std::collections::BTreeMap;
 
 pub mod dos;
+pub mod align;
+pub mod zc;
 pub mod text;
 pub mod cp437_table;
 pub mod paths;
@@ -54,6 +56,8 @@ pub fn all() -> Vec<Box<dyn Stream>> {
         Box::new(clones::Clones),
         Box::new(paths::Paths),
         Box::new(text::Text),
+        Box::new(zc::Zc),
+        Box::new(align::Align),
     ]
 }
 
